@@ -120,6 +120,12 @@ From Verif Require Import Model.LazyXref.
 (* a keyword value without a deferred object inside (no marker) is an ordinary value: evaluate_lazy leaves it alone,
    and it contributes no edge and no dependency - the template machinery is conservative over Lazy / LazySeq *)
 Theorem C18_plain_value_is_inert : forall rec v st,
-  plain v -> subst rec v None st [] = (st, Ok v) /\ refs_shallow v = [] /\ refs_all v = [].
+  plain v -> subst rec v None st [] = (st, Ok v) /\ refs_edge v = [] /\ refs_all v = [].
 Proof. exact plain_value_is_inert. Qed.
 Print Assumptions C18_plain_value_is_inert.
+
+(* the predecessors add_edge records for a node are exactly the deferred objects that evaluating the node evaluates,
+   at every container depth (formerly only one level deep: finding c18-nested-container-dependency-not-recorded) *)
+Theorem C18_recorded_edges_are_all_dependencies : forall nd, deps_edge nd = deps_all nd.
+Proof. exact recorded_edges_are_all_dependencies. Qed.
+Print Assumptions C18_recorded_edges_are_all_dependencies.
